@@ -30,6 +30,11 @@ def obligations(res):
     ]
 
 
+KNOWN_REP = ("repetition-bounds-read-origin-repetitions: RepetitionBoundsConstraint counts repetitions through the origin_repetitions tags of the nodes, "
+             "which the structural tree hash (the cache key) does not contain: after crossover two trees with the same structure carry different tags "
+             "(iteration ids of different parents collide), and the cached verdict of one is returned for the other")
+
+
 class NoCache(dict):
     """a cache that never remembers: on the fresh side every sub-evaluation is computed, none is looked up"""
 
@@ -178,7 +183,8 @@ def run_worker(args):
                                 "origin_repetitions": str([(str(x.symbol), x.origin_repetitions) for x in individual.flatten()][:12]),
                                 "was_in_evaluator_cache": was_cached, "search_fitness": fitness, "fresh_fitness": f2,
                                 "search_failing_paths": sorted(map(str, a))[:10], "fresh_failing_paths": sorted(map(str, b))[:10],
-                                "search_verdicts": verd1, "fresh_verdicts": verd2, "exceptions": excs, "caught_in_fresh_evaluator": caught, "solved_total": pairs}
+                                "search_verdicts": verd1, "fresh_verdicts": verd2,
+                                "constraint_kinds": [type(c).__name__ for c in self._hard_constraints + self._repetition_bounds_constraints], "exceptions": excs, "caught_in_fresh_evaluator": caught, "solved_total": pairs}
             return ret
 
         Evaluator.evaluate_individual = wrapped
@@ -217,6 +223,12 @@ def correspondence(res):
     sigs = {k["signature"] for k in known}
     rest = []
     for v in viols:
+        kinds = v.get("constraint_kinds", [])
+        diff_at = [i for i, (a, b) in enumerate(zip(v["search_verdicts"], v["fresh_verdicts"])) if a != b]
+        if diff_at and all(i < len(kinds) and kinds[i] == "RepetitionBoundsConstraint" for i in diff_at) and "repetition-bounds-read-origin-repetitions" in sigs:
+            res.known(KNOWN_REP)
+            res.bump("known_repetition_bounds_origin_repetitions")
+            continue
         only_parts = (v["search_fitness"] == v["fresh_fitness"] and v["search_verdicts"] == v["fresh_verdicts"])
         quantified = any(q in v["spec"] for q in ("forall ", "exists ", "any(", "all("))
         if only_parts and quantified and "failing-parts-of-equal-subtrees" in sigs:
